@@ -39,6 +39,11 @@ type ReplayFile struct {
 	Events    []string   `json:"events"`
 	RepoHead  string     `json:"repo_head"`
 	Note      string     `json:"note,omitempty"`
+	// FromSeed: the run killed its process (fatal runtime error, data race
+	// halt, hang), so no choice list could be recorded; the run is re-created
+	// from (seed, scenario, run_index) and replayed in a child process.
+	FromSeed bool   `json:"from_seed,omitempty"`
+	Stderr   string `json:"stderr,omitempty"`
 }
 
 type workerViolation struct {
@@ -50,6 +55,8 @@ type workerViolation struct {
 	Events     []string   `json:"events"`
 	ShrinkExec int        `json:"shrink_execs"`
 	OrigLen    int        `json:"orig_len"`
+	FromSeed   bool       `json:"from_seed,omitempty"`
+	Stderr     string     `json:"stderr,omitempty"`
 }
 
 type workerAgg struct {
@@ -85,25 +92,34 @@ func avoidList(m map[string]bool) string {
 	return strings.Join(ks, ",")
 }
 
+// ExitHooks run before the process exits normally (scratch directories).
+var ExitHooks []func()
+
 // Main is the entry point of every engine binary.
 func Main() {
 	if len(os.Args) < 2 {
 		fmt.Fprintln(os.Stderr, "usage: check|worker|replay|probe|one|digest ...")
 		os.Exit(2)
 	}
+	exit := func(code int) {
+		for _, f := range ExitHooks {
+			f()
+		}
+		os.Exit(code)
+	}
 	switch os.Args[1] {
 	case "check":
-		os.Exit(cmdCheck(os.Args[2:]))
+		exit(cmdCheck(os.Args[2:]))
 	case "worker":
-		os.Exit(cmdWorker(os.Args[2:]))
+		exit(cmdWorker(os.Args[2:]))
 	case "replay":
-		os.Exit(cmdReplay(os.Args[2:]))
+		exit(cmdReplay(os.Args[2:]))
 	case "probe":
-		os.Exit(cmdProbe(os.Args[2:]))
+		exit(cmdProbe(os.Args[2:]))
 	case "one":
-		os.Exit(cmdOne(os.Args[2:]))
+		exit(cmdOne(os.Args[2:]))
 	case "digest":
-		os.Exit(cmdDigest(os.Args[2:]))
+		exit(cmdDigest(os.Args[2:]))
 	case "list":
 		for _, id := range order {
 			fmt.Println(id)
@@ -253,6 +269,31 @@ func cmdReplay(args []string) int {
 		return 2
 	}
 	p := getProp(rf.Property)
+	if rf.FromSeed {
+		self, _ := os.Executable()
+		st := &checkState{hashes: map[uint64]struct{}{}}
+		stall := time.Duration(envInt("VERIF_STALL_S", 60)) * time.Second
+		r := runWorker(self, p, rf.Seed, batch{rf.Scenario, rf.RunIndex, rf.RunIndex + 1}, avoidSet(strings.Join(rf.Avoid, ",")), st, stall)
+		if r.done && len(st.viols) == 0 {
+			fmt.Println("REPLAY: the run completes without violation")
+			return 0
+		}
+		if !r.done {
+			class, msg := fatalClass(r, stall)
+			sig := p.ID + "|process-fatal|" + rf.Scenario + "|" + class
+			fmt.Printf("REPLAY: %s\n  %s\n", sig, msg)
+			if !*quiet {
+				fmt.Println(clip(r.stderr, 4000))
+			}
+			if rf.Violation != nil && sig != rf.Violation.Signature {
+				return 3
+			}
+			fmt.Printf("VIOLATION property=%s replay=%s\n", rf.Property, *file)
+			return 1
+		}
+		fmt.Println("REPLAY: the run no longer kills its process but reports", st.viols[0].Violation.Signature)
+		return 3
+	}
 	if strings.HasPrefix(rf.Scenario, "probe:") {
 		for _, pr := range p.Probes {
 			if pr.ID == rf.Scenario[6:] {
@@ -594,7 +635,10 @@ func cmdCheck(args []string) int {
 		// shown by its direct probe above), so whatever the search finds is
 		// by construction something the findings file does not list.
 		rf := &ReplayFile{Property: p.ID, Engine: p.Engine, Scenario: v.Scenario, Seed: seed, RunIndex: v.RunIndex,
-			Choices: v.Choices, Violation: v.Violation, Events: v.Events, RepoHead: head}
+			Choices: v.Choices, Violation: v.Violation, Events: v.Events, RepoHead: head, FromSeed: v.FromSeed, Stderr: v.Stderr}
+		if v.FromSeed {
+			rf.Note = "the run kills its process; it is re-created from (seed, scenario, run_index) and replayed in a child process; not minimised"
+		}
 		for k := range avoid {
 			rf.Avoid = append(rf.Avoid, k)
 		}
@@ -609,7 +653,11 @@ func cmdCheck(args []string) int {
 			return 2
 		}
 		nviol++
-		fmt.Printf("  %s\n  %s\n  minimised to %d choices (from %d, %d shrink executions)\n", s, v.Violation.Message, len(v.Choices), v.OrigLen, v.ShrinkExec)
+		if v.FromSeed {
+			fmt.Printf("  %s\n  %s\n", s, v.Violation.Message)
+		} else {
+			fmt.Printf("  %s\n  %s\n  minimised to %d choices (from %d, %d shrink executions)\n", s, v.Violation.Message, len(v.Choices), v.OrigLen, v.ShrinkExec)
+		}
 		fmt.Printf("VIOLATION property=%s replay=%s\n", p.ID, path)
 	}
 	writeEvidence(p, *tier, seed, start, st, avoid, nviol, knownSeen, probeNotes, sigs, skipped)
@@ -668,21 +716,126 @@ func runProbe(self, prop, id string, stall time.Duration) (*probeResult, bool, e
 	return nil, false, fmt.Errorf("probe %s produced no result (exit %v): %s", id, cmd.ProcessState, outb.String())
 }
 
-// runBatch runs one worker process over [from,to) and merges its output.  If
-// the worker stalls or dies, the run in progress is retried alone; see
-// handleDeath.
+// runBatch runs one worker process over [from,to) and merges its output.  A
+// worker that dies (fatal runtime error such as a stack overflow, race
+// detector halt, out of memory) or stalls cannot report anything itself; the
+// runs it was working on are then re-executed one per process to find the run
+// that kills its process deterministically.
 func runBatch(self string, p *Property, seed uint64, b batch, avoid map[string]bool, st *checkState, stall time.Duration) {
 	from := b.from
 	for from < b.to {
-		next, ok := runWorker(self, p, seed, batch{b.sc, from, b.to}, avoid, st, stall)
-		if ok {
+		r := runWorker(self, p, seed, batch{b.sc, from, b.to}, avoid, st, stall)
+		if r.done {
 			return
 		}
-		from = next
+		// isolate: candidates are the run announced last and (if markers are
+		// sparse) the following ones
+		start := r.last
+		if start < from {
+			start = from
+		}
+		culprit := -1
+		var first workerResult
+		for i := start; i < b.to && i < start+66; i++ {
+			one := runWorker(self, p, seed, batch{b.sc, i, i + 1}, avoid, st, stall)
+			if !one.done {
+				culprit, first = i, one
+				break
+			}
+		}
+		if culprit < 0 {
+			st.mu.Lock()
+			st.harness = append(st.harness, fmt.Sprintf("worker for %s/%s [%d,%d) %s near run %d but no single run reproduces it\n%s", p.ID, b.sc, from, b.to, r.what(stall), r.last, clip(r.stderr, 3000)))
+			st.mu.Unlock()
+			return
+		}
+		// must kill its process again to count
+		again := runWorker(self, p, seed, batch{b.sc, culprit, culprit + 1}, avoid, st, stall)
+		if again.done {
+			st.mu.Lock()
+			st.harness = append(st.harness, fmt.Sprintf("run %d of %s/%s killed its process once (%s) but not when repeated\n%s", culprit, p.ID, b.sc, first.what(stall), clip(first.stderr, 3000)))
+			st.mu.Unlock()
+			return
+		}
+		class, msg := fatalClass(first, stall)
+		v := &Violation{Oracle: "process-survives", Signature: p.ID + "|process-fatal|" + b.sc + "|" + class,
+			Message: fmt.Sprintf("run %d of scenario %s kills its process (%s), reproduced in two fresh processes: %s", culprit, b.sc, first.what(stall), msg)}
+		st.mu.Lock()
+		st.viols = append(st.viols, workerViolation{Scenario: b.sc, RunIndex: culprit, RawSig: v.Signature, Violation: v, FromSeed: true, Stderr: clip(first.stderr, 6000)})
+		st.mu.Unlock()
+		from = culprit + 1
 	}
 }
 
-func runWorker(self string, p *Property, seed uint64, b batch, avoid map[string]bool, st *checkState, stall time.Duration) (int, bool) {
+func clip(s string, n int) string {
+	if len(s) > n {
+		return s[:n] + "…"
+	}
+	return s
+}
+
+type workerResult struct {
+	done    bool
+	last    int
+	stalled bool
+	code    int
+	stderr  string
+}
+
+func (r workerResult) what(stall time.Duration) string {
+	if r.stalled {
+		return "no output for " + stall.String()
+	}
+	return fmt.Sprintf("exit code %d", r.code)
+}
+
+// fatalClass gives a stable class and a one-line message for a dead worker.
+func fatalClass(r workerResult, stall time.Duration) (string, string) {
+	if r.stalled {
+		return "hang", "no progress for " + stall.String()
+	}
+	if r.code == 66 && strings.Contains(r.stderr, "DATA RACE") {
+		return "data-race", raceSummary(r.stderr)
+	}
+	for _, l := range strings.Split(r.stderr, "\n") {
+		if strings.HasPrefix(l, "fatal error: ") {
+			c := strings.TrimPrefix(l, "fatal error: ")
+			return strings.ReplaceAll(c, " ", "-"), l
+		}
+		if strings.HasPrefix(l, "runtime: goroutine stack exceeds") {
+			return "stack-overflow", l
+		}
+		if strings.HasPrefix(l, "panic: ") {
+			return "uncaught-panic", l
+		}
+	}
+	return fmt.Sprintf("exit-%d", r.code), clip(r.stderr, 200)
+}
+
+// raceSummary extracts the two access sites of the first race report.
+func raceSummary(stderr string) string {
+	lines := strings.Split(stderr, "\n")
+	out := []string{}
+	for i, l := range lines {
+		if strings.HasPrefix(l, "Write at ") || strings.HasPrefix(l, "Read at ") || strings.HasPrefix(l, "Previous write at ") || strings.HasPrefix(l, "Previous read at ") {
+			site := ""
+			for j := i + 1; j < len(lines) && j < i+12; j++ {
+				t := strings.TrimSpace(lines[j])
+				if strings.HasPrefix(t, "github.com/pbenner/autodiff") {
+					site = t
+					break
+				}
+			}
+			out = append(out, strings.Fields(l)[0]+" "+strings.TrimSuffix(strings.Fields(l)[1], ":")+" in "+site)
+		}
+		if len(out) == 2 {
+			break
+		}
+	}
+	return strings.Join(out, " / ")
+}
+
+func runWorker(self string, p *Property, seed uint64, b batch, avoid map[string]bool, st *checkState, stall time.Duration) workerResult {
 	args := []string{"worker", "-property", p.ID, "-scenario", b.sc, "-seed", strconv.FormatUint(seed, 10),
 		"-from", strconv.Itoa(b.from), "-to", strconv.Itoa(b.to), "-avoid", avoidList(avoid)}
 	cmd := exec.Command(self, args...)
@@ -694,7 +847,7 @@ func runWorker(self string, p *Property, seed uint64, b batch, avoid map[string]
 		st.mu.Lock()
 		st.harness = append(st.harness, "cannot start worker: "+err.Error())
 		st.mu.Unlock()
-		return b.to, true
+		return workerResult{done: true}
 	}
 	lines := make(chan string, 256)
 	go func() {
@@ -705,9 +858,10 @@ func runWorker(self string, p *Property, seed uint64, b batch, avoid map[string]
 		}
 		close(lines)
 	}()
-	last := -1
-	gotAgg := false
-	stalled := false
+	res := workerResult{last: -1}
+	// results of a worker only count once it delivered its aggregate
+	var viols []workerViolation
+	var hashes []uint64
 	timer := time.NewTimer(stall)
 loop:
 	for {
@@ -725,26 +879,22 @@ loop:
 			timer.Reset(stall)
 			switch {
 			case strings.HasPrefix(l, "S "):
-				last, _ = strconv.Atoi(l[2:])
+				res.last, _ = strconv.Atoi(l[2:])
 			case strings.HasPrefix(l, "V "):
 				var wv workerViolation
 				if err := json.Unmarshal([]byte(l[2:]), &wv); err == nil {
-					st.mu.Lock()
-					st.viols = append(st.viols, wv)
-					st.mu.Unlock()
+					viols = append(viols, wv)
 				}
 			case strings.HasPrefix(l, "H"):
-				st.mu.Lock()
 				for _, f := range strings.Fields(l[1:]) {
 					if h, err := strconv.ParseUint(f, 16, 64); err == nil {
-						st.hashes[h] = struct{}{}
+						hashes = append(hashes, h)
 					}
 				}
-				st.mu.Unlock()
 			case strings.HasPrefix(l, "A "):
 				var a workerAgg
 				if err := json.Unmarshal([]byte(l[2:]), &a); err == nil {
-					gotAgg = true
+					res.done = true
 					st.mu.Lock()
 					st.aggs = append(st.aggs, a)
 					if a.Harness != "" {
@@ -754,7 +904,7 @@ loop:
 				}
 			}
 		case <-timer.C:
-			stalled = true
+			res.stalled = true
 			cmd.Process.Kill()
 			break loop
 		}
@@ -762,11 +912,18 @@ loop:
 	for range lines {
 	}
 	cmd.Wait()
-	if gotAgg {
-		return b.to, true
+	res.code = cmd.ProcessState.ExitCode()
+	res.stderr = errb.String()
+	st.mu.Lock()
+	// violations found before a death are real and replayable on their own
+	st.viols = append(st.viols, viols...)
+	if res.done {
+		for _, h := range hashes {
+			st.hashes[h] = struct{}{}
+		}
 	}
-	// the worker died or stalled without finishing
-	return p.handleDeath(self, seed, b, last, stalled, cmd.ProcessState.ExitCode(), errb.String(), avoid, st, stall)
+	st.mu.Unlock()
+	return res
 }
 
 func (p *Property) childEnv() []string {
@@ -775,30 +932,3 @@ func (p *Property) childEnv() []string {
 	}
 	return nil
 }
-
-// handleDeath: a worker that dies (race detector exit, fatal error, OOM) or
-// stalls loses its aggregate for the batch (conservative: those runs are not
-// counted).  For an Isolated property the run in progress is examined alone by
-// isolateRun; otherwise a death is harness trouble.
-func (p *Property) handleDeath(self string, seed uint64, b batch, last int, stalled bool, code int, stderr string, avoid map[string]bool, st *checkState, stall time.Duration) (int, bool) {
-	if DeathHandler != nil {
-		if next, handled := DeathHandler(p, self, seed, b, last, stalled, code, stderr, avoid, st, stall); handled {
-			return next, next >= b.to
-		}
-	}
-	st.mu.Lock()
-	defer st.mu.Unlock()
-	what := fmt.Sprintf("exit code %d", code)
-	if stalled {
-		what = "stalled (no output for " + stall.String() + ")"
-	}
-	if len(stderr) > 3000 {
-		stderr = stderr[:3000]
-	}
-	st.harness = append(st.harness, fmt.Sprintf("worker for %s/%s [%d,%d) %s near run %d\n%s", p.ID, b.sc, b.from, b.to, what, last, stderr))
-	return b.to, true
-}
-
-// DeathHandler lets an engine package (simulated pool, step clock) turn a
-// dead/stalled worker into a verdict.  Set in isolate.go.
-var DeathHandler func(p *Property, self string, seed uint64, b batch, last int, stalled bool, code int, stderr string, avoid map[string]bool, st *checkState, stall time.Duration) (int, bool)
